@@ -166,7 +166,10 @@ def shrinker(hb, hargs):
                     cand = delete(doc, pth)
                 except Exception:
                     continue
-                r = ev(dict(d, yaml=yaml.safe_dump(cand, default_flow_style=False)))
+                text = yaml.safe_dump(cand, default_flow_style=False)
+                if d.get("key") and d["key"] not in text:
+                    continue  # never shrink the injected / probed key away
+                r = ev(dict(d, yaml=text))
                 if r[2][:40] == cls:
                     doc, best, changed = cand, r, True
                     break
@@ -190,22 +193,23 @@ def main():
     ok, detail = gen_c20.regen()
     c.oblige("extractor xconfig: static key tables == measured (yaml.v3 probes), schema subset understood, decoder sites and As…() shapes understood", ok, detail)
     facts = None
-    if ok:
+    tables = os.path.exists(gen_c20.OUT_JSON) and os.path.exists(gen_c20.OUT_LEAN)
+    if tables:
         facts = json.load(open(gen_c20.OUT_JSON))
         c.cov["tables"] = {
             "keys": len(facts["keys"]), "structs": facts["structs"], "measured_probes": facts["measured_probes"],
             "decoder_sites": [{k: s[k] for k in ("file", "func", "known_fields", "loader")} for s in facts["sites"]],
             "files": {f["name"]: {"loader_structs": len(f["lenv"]), "loader_keys": sum(len(d["fields"] or []) for d in f["lenv"]),
                                    "published_defs": len(f["penv"]), "published_keys": sum(len(p.get("props") or []) for p in f["penv"]),
-                                   "rule_unions": [{u["name"]: len(u["recognised"])} for u in (f["unions"] or [])]} for f in facts["files"]},
+                                   "rule_unions": [{u["name"]: len(u["recognised"] or [])} for u in (f["unions"] or [])]} for f in facts["files"]},
         }
     hb, err = build_harness()
     c.oblige("harness (c20 subset) builds against /repo working tree", hb is not None, err)
 
     # ---- Lean obligations (only the modules C20 depends on are built and scanned)
-    eval_ok, out = lake_build(("Cog.Config.Eval",)) if ok else (False, "no generated tables")
+    eval_ok, out = lake_build(("Cog.Config.Eval",)) if tables else (False, "no generated tables")
     c.oblige("lake build Cog.Config.Eval (model + regenerated tables + evaluator)", eval_ok, out[-2500:] if not eval_ok else "")
-    lean_ok, out = lake_build(("Cog.Props.C20",)) if ok else (False, "no generated tables")
+    lean_ok, out = lake_build(("Cog.Props.C20",)) if tables else (False, "no generated tables")
     c.oblige("lake build Cog.Props.C20", lean_ok, out[-3000:] if not lean_ok else "")
     hits = [h for h in forbidden_scan() if h.startswith(MINE)]
     c.oblige("no sorry/admit/axiom/native_decide/bv_decide/implemented_by/unsafe in the C20 lean sources", not hits, hits[:10])
@@ -219,8 +223,16 @@ def main():
                 p = run(["lake", "env", "leanchecker", "Cog.Props.C20"], cwd=LEAN, timeout=3000)
             c.oblige("leanchecker Cog.Props.C20", p.returncode == 0, (p.stdout + p.stderr)[-1500:])
     else:
+        # the table-independent theorems live in the model modules and are still checked
+        generic = ["Cog.Config.bisim_sound", "Cog.Config.insert_unknown_rejected"]
+        gok, _ = lake_build(("Cog.Config.Bisim", "Cog.Config.Path"))
+        res, text = audit(generic, ("Cog.Config.Bisim", "Cog.Config.Path")) if gok else ({}, "")
         for t in THEOREMS:
-            c.oblige("theorem " + t, False, "build failed")
+            if t in res:
+                o, ax = res[t]
+                c.oblige("theorem %s (axioms: %s)" % (t, ",".join(ax) or "none"), o, text[-1500:] if not o else "")
+            else:
+                c.oblige("theorem " + t, False, "Cog.Props.C20 does not build on the regenerated tables")
 
     checker_cmd = "cd /verif/lean && lake build Cog.Props.C20 && lake env lean <#print axioms of the C20_* theorems>  (tables regenerated by /verif/.work/bin/xconfig)"
     rule = ("documents generated from the regenerated key tables; the unknown key is injected at every mapping node of every document in turn; "
@@ -257,6 +269,7 @@ def main():
         plan.insert(0, ("c20-eval", {"in": corpus}))
     sh = shrinker(hb, hargs)
     reported = 0
+    first_dis = None
     classes = collections.Counter()
     candidates = []
     for stream, kw in plan:
@@ -311,13 +324,17 @@ def main():
                 c.violation({"kind": "oracle-failure", "stream": stream, "args": kw, "request": r[0], "impl": r[1], "oracle": r[2],
                              "case": {k: d[k] for k in ("file", "what", "path", "key", "yaml")}, "loader_error": d["loader"], "schema_error": d["schema"]})
                 reported += 1
-        if dis and not reported:
-            r, m = dis[0]
-            d = json.loads(r[3])
-            c.violation({"kind": "correspondence-broken", "stream": stream, "args": kw,
-                         "broken": "stream %s: the Lean model's verdict differs from the implementation's" % stream,
-                         "request": r[0], "impl": r[1], "model": m, "oracle": r[2], "n_disagreements": len(dis),
-                         "case": {k: d[k] for k in ("file", "what", "path", "key", "yaml")}}, found_input=False)
+        if dis and first_dis is None:
+            first_dis = (stream, kw, dis)
+    if first_dis and not reported:
+        # the model no longer describes the code and the oracle found no failing input
+        stream, kw, dis = first_dis
+        r, m = dis[0]
+        d = json.loads(r[3])
+        c.violation({"kind": "correspondence-broken", "stream": stream, "args": kw,
+                     "broken": "stream %s: the Lean model's verdict differs from the implementation's" % stream,
+                     "request": r[0], "impl": r[1], "model": m, "oracle": r[2], "n_disagreements": len(dis),
+                     "case": {k: d[k] for k in ("file", "what", "path", "key", "yaml")}}, found_input=False)
     c.cov["distribution"] = dict(classes)
     if candidates:
         c.cov["candidate_findings"] = {"id": CANDIDATE["id"], "what": CANDIDATE["what"], "match": CANDIDATE["match"],
